@@ -235,7 +235,9 @@ def run_scenarios(seed, start, count, clauses):
                     F2 = drive(m2, params, b["F0"], (lambda t, x, k=k: k * gL(t * k, x)), (lambda t, k=k: gp(t * k)), b["times"] / k)
                     d = max(np.abs(np.asarray(m2.orientations[-1]) - np.asarray(m.orientations[-1])).max(), np.abs(np.asarray(m2.fractions[-1]) - np.asarray(m.fractions[-1])).max() * n,
                             np.abs(F2 - F).max() / max(1e-12, np.abs(F).max()))
-                    if not np.isfinite(d) or d > 1e-6:
+                    # rounding level for smooth histories; a history that is discontinuous in time (staged) is only reproduced within
+                    # the solver tolerance, because k*(t/k) != t in floating point moves the step sequence across the jumps
+                    if not np.isfinite(d) or d > (1e-6 if sc["L_kind"] != "staged" else 5e-3):
                         msgs.append(f"rate scaling k={k:g}: textures/F differ by {d:.3e}")
             if "C04" in clauses:
                 Q = rot(np.random.default_rng([sc["seed"], sc["idx"], 11]))
